@@ -340,6 +340,64 @@ let frag_case (s : X.t) : string =
   | X.List (X.Atom "fragparse" :: items) -> "(frag (back " ^ d_back (parse_frag (cps_of items)) ^ "))"
   | _ -> "(bad-case)"
 
+(* ---- FormatFrag2.v: the fragment with blocks ---- *)
+let rec gterm_of (s : X.t) : gterm =
+  match s with
+  | X.List [X.Atom "i"; n] -> GInt (z_of_string (X.atom n))
+  | X.List (X.Atom "id" :: items) -> GIdent (cps_of items)
+  | X.List (X.Atom "s" :: items) -> GStr (cps_of items)
+  | X.List (X.Atom "t" :: name :: fields) ->
+    GTuple (opt_cps name, List.map (function
+        | X.List (X.Atom "f" :: label :: terms) -> GField (opt_cps label, List.map gterm_of terms)
+        | _ -> failwith "fragment field") fields)
+  | X.List (X.Atom "b" :: branches) ->
+    GBlock (List.map (function
+        | X.List [X.Atom "br"; c; k] -> GBranch (gseq_of c, (match k with X.List _ -> Some (gseq_of k) | _ -> None))
+        | _ -> failwith "fragment branch") branches)
+  | _ -> failwith ("fragment term " ^ X.to_string s)
+and gseq_of (s : X.t) : gterm list list =
+  match s with
+  | X.List (_ :: chains) -> List.map (function X.List (_ :: terms) -> List.map gterm_of terms | _ -> failwith "chain") chains
+  | _ -> failwith "sequence"
+let rec d_gterm (t : gterm) : string =
+  match t with
+  | GInt z -> "(i " ^ string_of_z z ^ ")"
+  | GIdent n -> "(id " ^ d_cps n ^ ")"
+  | GStr s -> "(s " ^ d_cps s ^ ")"
+  | GTuple (name, fields) ->
+    "(t " ^ (match name with None -> "-" | Some n -> "(n " ^ d_cps n ^ ")")
+    ^ String.concat "" (List.map (fun (GField (label, terms)) ->
+        " (f " ^ (match label with None -> "-" | Some n -> "(l " ^ d_cps n ^ ")")
+        ^ String.concat "" (List.map (fun t -> " " ^ d_gterm t) terms) ^ ")") fields) ^ ")"
+  | GBlock branches ->
+    "(b" ^ String.concat "" (List.map (fun (GBranch (c, k)) ->
+        " (br " ^ d_gseq c ^ " " ^ (match k with Some s -> d_gseq s | None -> "-") ^ ")") branches) ^ ")"
+and d_gseq (s : gterm list list) : string =
+  "(q" ^ String.concat "" (List.map (fun c -> " (c" ^ String.concat "" (List.map (fun t -> " " ^ d_gterm t) c) ^ ")") s) ^ ")"
+let d_back2 = function Some s -> "(ok " ^ d_gseq s ^ ")" | None -> "(err)"
+
+let frag2_case (s : X.t) : string =
+  match s with
+  | X.List [X.Atom "frag2fmt"; sq] ->
+    let c = gseq_of sq in
+    if not (g_wf_seq c) then "(frag2 ill-formed)"
+    else begin
+      (* model only: at every width the output parses back to something with the same normal form, and formatting
+         that again gives the same text *)
+      let nf = g_normalize c in
+      let allw = List.for_all (fun w ->
+          match format_frag2 c (nat_of_int w) with
+          | Some out -> (match parse_frag2 out with
+              | Some c' -> g_normalize c' = nf && format_frag2 c' (nat_of_int w) = Some out
+              | None -> false)
+          | None -> false) [0; 7; 20; 41; 51; 80; 100; 300] in
+      match format_frag2 c (nat_of_int 100) with
+      | Some out -> Printf.sprintf "(frag2 (out %s) (back %s))%s" (d_cps out) (d_back2 (parse_frag2 out)) (if allw then "" else " ALL-WIDTHS-FAILED")
+      | None -> "(frag2 out-of-fuel)"
+    end
+  | X.List (X.Atom "frag2parse" :: items) -> "(frag2 (back " ^ d_back2 (parse_frag2 (cps_of items)) ^ "))"
+  | _ -> "(bad-case)"
+
 let other_case (mode : string) (s : X.t) : string =
   match mode with
   | "esc" -> esc_case s
@@ -347,6 +405,7 @@ let other_case (mode : string) (s : X.t) : string =
   | "rawsingle" -> rawsingle_case s
   | "pretty" -> pretty_case s
   | "frag" -> frag_case s
+  | "frag2" -> frag2_case s
   | _ -> "(unsupported-mode)"
 
 let () =
